@@ -5,7 +5,7 @@ from .prog import short, place_str
 TRANSPARENT = re.compile(
     r"^core::option::Option::(map|as_ref|as_mut|cloned|copied|as_deref|as_deref_mut|take|and_then|filter|ok_or|ok_or_else)$|"
     r"^core::result::Result::(map|as_ref|as_mut|ok|map_err|cloned|copied)$|"
-    r"^<.* as core::ops::deref::Deref(Mut)?>::deref(_mut)?$|^<.* as core::clone::Clone>::clone$|"
+    r"^<.* as core::ops::deref::Deref(Mut)?>::deref(_mut)?$|^<.* as core::clone::Clone>::clone$|^core::clone::Clone::clone$|"
     r"^<.* as core::convert::(AsRef|AsMut|Into|From)<.*>>::(as_ref|as_mut|into|from)$|"
     r"^<.* as core::borrow::Borrow(Mut)?<.*>>::borrow(_mut)?$|"
     r"^<.* as core::ops::try_trait::Try>::branch$|^alloc::string::String::as_str$|^alloc::vec::Vec::as_slice$|"
